@@ -61,15 +61,101 @@ Ltac src_case Hnth :=
   | cbn in H; first [ left; right; right; right; exact H
                     | inversion H; subst; right; left; reflexivity ] ].
 
+Ltac src_strict Hnth :=
+  let x := fresh "x" in
+  intros x [ (t0 & f1 & k1 & e1 & H) | [ (f1 & k1 & H) | [ (t2 & th2 & Hn2 & H) | H ] ] ];
+  [ cbn in H; destruct H as [H|H]; [discriminate H | left; do 4 eexists; exact H]
+  | destruct f1; cbn in H; right; left; do 2 eexists; exact H
+  | cbn in Hn2; apply nth_error_upd in Hn2 as [[<- ->]|[_ Hn2]];
+    [ cbn in H; destruct H as [H|H]; discriminate H
+    | right; right; left; do 2 eexists; split; [exact Hn2 | exact H] ]
+  | cbn in H; right; right; right; exact H ].
+
 Lemma step_fresh : forall s t s' th,
   nth_error (thrs s) t = Some th -> pc_ok th = true -> step s t = Some s' ->
   (fresh_objs (log s') = fresh_objs (log s) /\ forall x, src s' x -> src s x \/ x = next s \/ x < 0) \/
   (fresh_objs (log s') = next s :: fresh_objs (log s) /\ next s' = next s + 1 /\
-   forall x, src s' x -> src s x \/ x = next s \/ x < 0).
+   forall x, src s' x -> src s x).
 Proof.
   intros s t s' th Hnth Hok Hstep. unfold step, step_gen in Hstep. rewrite Hnth in Hstep.
   step_cases Hstep Hok.
   { inversion Hstep; subst. left. split; [reflexivity | intros x H; now left]. }
   all: first [ left; split; [reflexivity | src_case Hnth]
-             | right; split; [reflexivity | split; [reflexivity | src_case Hnth]] ].
+             | right; split; [reflexivity | split; [reflexivity | src_strict Hnth]] ].
+Qed.
+
+(* ---------------------------------------------------------------- the freshness invariant *)
+
+Definition finv (s : state) : Prop :=
+  (forall o, In o (fresh_objs (log s)) -> 0 < o < next s) /\
+  NoDup (fresh_objs (log s)) /\
+  (forall x, src s x -> ~ In x (fresh_objs (log s))).
+
+Lemma src_lt : forall s x, inv s -> src s x -> x < next s.
+Proof.
+  intros s x [_ [Hg Ht]] [ (t0 & f & k & e & H) | [ (f & k & H) | [ (t2 & th2 & Hn & H) | H ] ] ].
+  - eapply g_bind_lt; eauto.
+  - eapply g_wmap_lt; eauto.
+  - destruct (Ht _ _ Hn) as (T0 & T1 & _). destruct H; [now apply T0 | now apply T1].
+  - eapply g_single; eauto.
+Qed.
+
+Lemma finv_step : forall s t s', inv s -> finv s -> step s t = Some s' -> finv s'.
+Proof.
+  intros s t s' Hi (F1 & F2 & F3) Hstep.
+  destruct (nth_error (thrs s) t) as [th|] eqn:Hnth.
+  2:{ unfold step, step_gen in Hstep. rewrite Hnth in Hstep. inversion Hstep; subst. split; [assumption | split; assumption]. }
+  destruct (proj1 (proj1 Hi) _ _ Hnth) as [Hok _].
+  pose proof (step_next _ _ _ Hstep) as Hn.
+  destruct (step_fresh _ _ _ _ Hnth Hok Hstep) as [[E Hs]|[E [En Hs]]]; unfold finv; rewrite E.
+  - split; [intros o Ho; apply F1 in Ho; lia|]. split; [assumption|].
+    intros x Hx Hf. destruct (Hs _ Hx) as [H|[->|H]].
+    + eapply F3; eauto.
+    + apply F1 in Hf. lia.
+    + apply F1 in Hf. lia.
+  - pose proof (g_next _ (proj1 (proj2 Hi))) as Hpos.
+    split; [intros o [<-|Ho]; [lia | apply F1 in Ho; lia]|].
+    split; [constructor; [intros Hin; apply F1 in Hin; lia | assumption]|].
+    intros x Hx [<-|Hf].
+    + apply Hs in Hx. pose proof (src_lt _ _ Hi Hx). lia.
+    + eapply F3; eauto.
+Qed.
+
+Lemma finv_run : forall sched s, inv s -> finv s -> finv (run s sched).
+Proof.
+  unfold run, run_gen. induction sched as [|t r IH]; intros s Hi Hf; cbn; [assumption|].
+  apply IH; [now apply inv_step_or_stay|].
+  unfold step_or_stay. destruct (step_gen false s t) eqn:E; [|assumption].
+  eapply finv_step; eauto.
+Qed.
+
+Lemma finv_init : forall progs, finv (init progs).
+Proof.
+  intros progs. split; [intros o []|]. split; [constructor|]. intros x _ [].
+Qed.
+
+Lemma fresh_in : forall l t o, In (EFresh t o) l -> In o (fresh_objs l).
+Proof.
+  intros l t o H. unfold fresh_objs. apply in_flat_map. exists (EFresh t o). split; [assumption|now left].
+Qed.
+
+(* an object returned by instance()/nocache() is never one a factory call returned, looked up or
+   created; it is not the tzutc singleton; instance() results are pairwise different objects *)
+Lemma instance_fresh_lemma : forall progs sched t o,
+  let s := run (init progs) sched in
+  In (EFresh t o) (log s) ->
+  (forall t' f k o' e h, In (ERet t' f k o' e h) (log s) -> o' <> o) /\
+  (forall t' f k o' e, In (EBind t' f k o' e) (log s) -> o' <> o) /\
+  ~ In (Some o) (utc_results (log s)) /\
+  NoDup (fresh_objs (log s)).
+Proof.
+  intros progs sched t o s Hin.
+  assert (Hi : inv s) by apply inv_reachable.
+  destruct (finv_run sched _ (inv_reachable progs []) (finv_init progs)) as (F1 & F2 & F3). fold s in F1, F2, F3.
+  apply fresh_in in Hin.
+  assert (Hb : forall t' f k o' e, In (EBind t' f k o' e) (log s) -> o' <> o).
+  { intros t' f k o' e H ->. eapply F3; [|exact Hin]. left. eauto. }
+  split; [|split; [exact Hb|split; [|exact F2]]].
+  - intros t' f k o' e h H. destruct (g_ret _ (proj1 (proj2 Hi)) _ _ _ _ _ _ H) as [t'' B]. eapply Hb; eauto.
+  - intros Hu. apply tzutc_identity_lemma in Hu. inversion Hu. apply F1 in Hin. lia.
 Qed.
